@@ -89,7 +89,9 @@ pub fn run_config(out: &mut Out, cfg: &McConfig, seed: u64, nfits: usize) {
         let model = make_model::<f64>(&recipe, &init, cfg.built, &probe);
         let wv = w.as_ref().map(|w| DVector::from_vec(w.clone()));
         let ym = DMatrix::from_columns(&[y]);
-        let prob = match build_problem(Flavour::New, model, &ym, wv.as_ref(), None) {
+        // every third configuration goes through the parallel constructor (feature `parallel`)
+        let flavour = if cfg.n % 3 == 0 { Flavour::NewPar } else { Flavour::New };
+        let prob = match build_problem(flavour, model, &ym, wv.as_ref(), None) {
             Ok(p) => p,
             Err(_) => {
                 failed += 1;
